@@ -966,6 +966,19 @@ func (p *Prog) sliceWrites() map[string]map[types.Object]string {
 						}
 						return true
 					}
+					// library functions that write through a slice argument
+					if strings.HasSuffix(cn, "big.Int.FillBytes") || strings.HasPrefix(cn, "strconv.Append") || strings.HasSuffix(cn, ".Read") || cn == "io.ReadFull" {
+						idx := 0
+						if cn == "io.ReadFull" {
+							idx = 1
+						}
+						if idx < len(x.Args) {
+							if po := root(x.Args[idx]); po != nil {
+								note(po, cn+" writes through "+po.Name()+" at "+p.posStr(x))
+							}
+						}
+						return true
+					}
 					cfd := p.Funcs[cn]
 					if cfd == nil || cfd.Type.Params == nil {
 						return true
